@@ -29,6 +29,7 @@ def run(ctx):
     n += S.rule_consumers(ctx, 'R10.2')
     ctx.floor('R10.2', n, 25)
     r3(ctx)
+    r6(ctx)
     ctx.rule('R10.5', 'Track::distances: compatible guard, full pair product without short-circuit, query/result wiring')
     ctx.floor('R10.5', S.rule_track_distances(ctx, 'R10.5'), 7)
 
@@ -169,3 +170,24 @@ def r3(ctx):
             ctx.fail(R3, o, 'delegates', 'owned_track_distances does not delegate to foreign_track_distances')
         dd = destroyed(o, r'^(std::vec::Vec<|std::option::Option<)?track::Track<')
         ctx.check(not dd, R4, o, 'nothing-destroyed', '', 'tracks can be destroyed: %s' % dd)
+
+
+def r6(ctx):
+    R = 'R10.6'
+    ctx.rule(R, 'the default postprocess_distances is the identity; dropping the store does not mutate shards while '
+                'queries may be in flight')
+    b = ctx.anchor(R, 'track::ObservationMetric::postprocess_distances')
+    if b is not None:
+        e = ExprBuilder(b).place(0, ()).strip()
+        ctx.check(e.kind == 'place' and e.root == ('param', 2) and not e.fields, R, b, 'default-postprocess-is-identity',
+                  repr(e), 'the default ObservationMetric::postprocess_distances returns %r instead of its input: '
+                  'results for which the metric yields a value are dropped for every metric that does not override it' % e)
+    d = ctx.anchor(R, '<track::store::TrackStore as std::ops::Drop>::drop')
+    if d is not None:
+        from lib import deep_calls
+        muts = deep_calls(ctx.F, d, S.STORE + '::clear', 'std::collections::HashMap::clear',
+                          'std::collections::HashMap::remove', S.STORE + '::fetch_tracks',
+                          'std::collections::HashMap::drain')
+        ctx.check(not muts, R, d, 'drop-does-not-mutate-shards', '', 'TrackStore::drop empties the shards (%s) before '
+                  'the workers have processed the commands still queued: in-flight distance queries run against an '
+                  'emptied store' % [c.name for _, c in muts])
